@@ -161,8 +161,8 @@ func c03EvalReadOnly(exp *ExpressionNode, n *CandidateNode) (*list.List, error) 
 	return ctx.MatchingNodes, nil
 }
 
-var c03Producers = []string{".", "sort", "reverse", ".[1:]", "map(.)", ". + [9]", "[.[]]"}
-var c03ProducerNames = []string{"id", "sort", "reverse", "slice", "map", "concat", "collect"}
+var c03Producers = []string{".", "sort", "reverse", ".[1:]", "map(.)", ". + [9]", "[.[]]", ". - [9]", ". - [.[0]]", "unique", "flatten", "filter(. != 9)", ". as $v | $v", "sort_by(.)"}
+var c03ProducerNames = []string{"id", "sort", "reverse", "slice", "map", "concat", "collect", "subtract-nothing", "subtract-first", "unique", "flatten", "filter", "variable", "sort_by"}
 
 // VerifC03DeleteSeq: sequences of n single-digit integers; producer f; selection s with symbolic indices / values.
 func VerifC03DeleteSeq() {
